@@ -135,6 +135,63 @@ func accScenarios(tier string) []*mc.Scenario {
 			},
 		})
 	}
+	// trigger and events while the directly subscribed resource is still
+	// waiting for a slow reference: the deferred re-check must come before the
+	// queued events are released
+	for _, trig := range []string{"token", "reaccess", "reset", "token/sent", "reaccess/sent", "reset/sent"} {
+		trig := trig
+		// plain: the trigger falls into the initial load of the subscribe;
+		// sent: the resource is already sent and queues again behind the load
+		// of a reference brought by a change event
+		sent := strings.HasSuffix(trig, "/sent")
+		trig = strings.TrimSuffix(trig, "/sent")
+		subPhase := 1
+		trigOps := []mc.Op{tokenOp(0, `{"u":1}`, "", 0)}
+		if sent {
+			subPhase = 0
+			trigOps = append(trigOps, op("m.r=x", 1, func(w *mc.World) { w.Svc.Change("test.m", "r", ref("test.x")) }))
+		}
+		name := "acc/revoke-loading/" + trig
+		if sent {
+			name += "/sent"
+		}
+		out = append(out, &mc.Scenario{
+			Name: name, Props: []string{"C06", "C03"}, Init: func(w *mc.World) {
+				basicInit(w)
+				if sent {
+					w.Svc.Model("test.m", "n", `0`)
+				} else {
+					w.Svc.Model("test.m", "n", `0`, "r", ref("test.x"))
+				}
+			}, Monitors: allMons(seqMon),
+			Slow:  func(r *mc.Req) bool { return r.Subject == "get.test.x" },
+			Conns: []mc.ConnSpec{conn(latest, req("subscribe.test.m", subPhase))},
+			Threads: []mc.Thread{
+				{Name: "trig", Ops: append(trigOps,
+					op("trigger", 2, func(w *mc.World) {
+						switch trig {
+						case "token":
+							w.Svc.TokenEvent(0, `{"u":2}`, "")
+						case "reaccess":
+							w.Svc.Reaccess("test.m")
+						case "reset":
+							w.Svc.Reset(nil, []string{"test.m"})
+						}
+					}),
+				)},
+				{Name: "stream", Ops: []mc.Op{
+					op("m+", 3, func(w *mc.World) { w.Svc.StreamNext("test.m") }),
+					op("m+", 3, func(w *mc.World) { w.Svc.StreamNext("test.m") }),
+				}},
+			},
+			Menu: func(w *mc.World, r *mc.Req) []mc.Outcome {
+				if r.Subject == "access.test.m" {
+					return []mc.Outcome{w.OK(r), mc.Raw("deny", `{"result":{"get":false}}`), mc.Timeout()}
+				}
+				return nil
+			},
+		})
+	}
 	// a grant obtained for a direct subscription that was given up while the
 	// resource stays held indirectly, invalidated, then used again
 	for _, trig := range []string{"token", "reaccess", "reset"} {
